@@ -67,10 +67,15 @@ func (tx *Tx) UnmarshalJSON(b []byte) error {
 // MarshalJSON will convert an input to json, expanding upon the
 // input struct to add additional fields.
 func (i *Input) MarshalJSON() ([]byte, error) {
+	// An input that has not been signed yet has no unlocking script.
+	unlockingScript := i.UnlockingScript
+	if unlockingScript == nil {
+		unlockingScript = &bscript.Script{}
+	}
 	return json.Marshal(&inputJSON{
 		TxID:            hex.EncodeToString(i.previousTxID),
 		Vout:            i.PreviousTxOutIndex,
-		UnlockingScript: i.UnlockingScript.String(),
+		UnlockingScript: unlockingScript.String(),
 		Sequence:        i.SequenceNumber,
 	})
 }
